@@ -10,7 +10,8 @@ assert subprocess.run(["git", "-C", "/repo", "status", "--porcelain", "--untrack
 ev = os.path.join(ROOT, "evidence", prop + ".json"); saved = open(ev).read() if os.path.exists(ev) else None   # evidence must describe the unchanged tree
 subprocess.run(["git", "-C", "/repo", "apply", os.path.join(d, "patch.diff")], check=True)
 try:
-    r = subprocess.run([sys.executable, os.path.join(ROOT, "verif.py"), "check", prop, "--tier", tier], stdout=subprocess.PIPE, stderr=subprocess.PIPE, text=True)
+    env = dict(os.environ); env.setdefault("VERIF_MAX_VIOLATIONS", "1")   # one minimised violation per worker is enough to call a change caught
+    r = subprocess.run([sys.executable, os.path.join(ROOT, "verif.py"), "check", prop, "--tier", tier], stdout=subprocess.PIPE, stderr=subprocess.PIPE, text=True, env=env)
 finally:
     subprocess.run(["git", "-C", "/repo", "checkout", "--", "."], check=True)
     if saved is not None: open(ev, "w").write(saved)
